@@ -594,6 +594,69 @@ impl Obs {
                 if !usable {
                     continue;
                 }
+                // Insider forgeries of the Welcome: the GroupInfo is opened with the joiner secret, changed and sealed again
+                // (what any member of the new epoch can do). The unchanged re-sealed Welcome is the positive control.
+                if !info.external {
+                    use crate::forge::{reseal_welcome, GroupInfoEdit};
+                    let suite = w.cfg.suite;
+                    let csp = party.suite_provider(suite);
+                    let kstore = party.kstore.clone();
+                    let lookup = |id: &[u8]| -> Option<(Vec<u8>, Vec<u8>)> {
+                        let _g = kstore.ctl.suspend();
+                        let d = mls_rs::KeyPackageStorage::get(&kstore, id).ok()??;
+                        let mut r = crate::refmodel::tls::Reader::new(&d.key_package_bytes);
+                        r.u16()?;
+                        r.u16()?;
+                        Some((d.init_key.as_ref().to_vec(), r.opaque()?.to_vec()))
+                    };
+                    let committer_signer = w.parties[info.committer].signer.clone();
+                    let other_leaf = w.members().iter().map(|m| w.parties[*m].leaf()).find(|l| *l != w.parties[info.committer].leaf()).unwrap_or(0);
+                    let edits = [
+                        ("control", GroupInfoEdit::None, false),
+                        ("group_info_signature_bit", GroupInfoEdit::SignatureBit(self.rng.below(512) as usize), true),
+                        ("group_info_signer_index", GroupInfoEdit::SignerIndex(other_leaf), true),
+                        ("group_info_confirmation_tag_resigned", GroupInfoEdit::ConfirmationTagResigned(committer_signer.clone()), true),
+                        ("group_info_epoch_resigned", GroupInfoEdit::EpochResigned(committer_signer.clone()), true),
+                        ("unrelated_path_secret_in_group_secrets", GroupInfoEdit::UnrelatedPathSecret, true),
+                    ];
+                    let mut control_ok = false;
+                    for (name, edit, must_reject) in edits {
+                        if must_reject && !control_ok {
+                            break;
+                        }
+                        let Some(f) = reseal_welcome(suite, &csp, wb, &lookup, &edit) else {
+                            self.ev.class("welcome_reseal:not_applicable");
+                            break;
+                        };
+                        let tree = info.tree_oob.clone();
+                        self.attempts += 1;
+                        self.ev.eval(1);
+                        let r = guard(|| {
+                            let tr = match &tree {
+                                Some(t) => Some(ExportedTree::from_bytes(t)?),
+                                None => None,
+                            };
+                            party.client.join_group(tr, &MlsMessage::from_bytes(&f.bytes)?, Some(t)).map(|_| ())
+                        });
+                        match (must_reject, r) {
+                            (_, Err(e)) if e.is_panic() => return Err(panic_failure(P, &format!("join_group(re-sealed welcome, {name})"), &e)),
+                            (false, Ok(())) => {
+                                control_ok = true;
+                                self.ev.class("welcome_reseal_control:accepted");
+                            }
+                            (false, Err(e)) => {
+                                self.ev.class(&format!("welcome_reseal_control_failed:{}", e.class()));
+                                break;
+                            }
+                            (true, Ok(())) => return Err(fail(&format!("modified_welcome_accepted|insider_{name}"), format!("joiner {j} joined with a Welcome whose GroupInfo was re-sealed after: {name}"))),
+                            (true, Err(e)) => {
+                                self.ev.class(&format!("rejected:welcome:insider_{name}:{}", e.class()));
+                                self.ev.class(&format!("insider_forgeries:welcome:{name}"));
+                                self.ev.nontrivial(&("welcome-insider", name, j, w.epoch));
+                            }
+                        }
+                    }
+                }
                 let secrets_entries = wire::message_spans(wb).map(|(_, s)| s.iter().filter(|x| x.name.ends_with("].new_member")).count()).unwrap_or(0);
                 for _ in 0..self.per_message {
                     let Some(mu) = outsider_mutation(&mut self.rng, wb) else { continue };
@@ -706,6 +769,14 @@ impl Obs {
         }
         let s = members[self.rng.below(members.len() as u64) as usize];
         let epoch = w.parties[s].g().current_epoch();
+        // GroupInfo messages of this epoch, with and without the ratchet tree: stale in every later epoch
+        for with_tree in [false, true] {
+            if let Ok(m) = guard(|| w.parties[s].g().group_info_message(with_tree)) {
+                if let Ok(b) = m.to_bytes() {
+                    self.withheld.push((epoch, s, if with_tree { "group_info_with_tree" } else { "group_info_without_tree" }, b));
+                }
+            }
+        }
         let public = !w.parties[s].enc_opts.encrypt_control_messages;
         let mut clone = w.parties[s].g().clone();
         let cp = CustomProposal::new(ProposalType::new(CUSTOM_PROPOSAL), vec![0x77; 5]);
@@ -721,7 +792,7 @@ impl Obs {
                 self.withheld.push((epoch, s, if public { "withheld_public_commit" } else { "withheld_private_commit" }, b));
             }
         }
-        while self.withheld.len() > 8 {
+        while self.withheld.len() > 16 {
             self.withheld.remove(0);
         }
     }
@@ -850,7 +921,7 @@ pub fn run(ctx: &Ctx) -> ! {
          confirmation tag, content or authenticated_data changed with a fresh membership tag; structural forgeries by the committer itself (leaf and content re-signed with its keys, parent hash recomputed over the \
          modified path by the independent tree model, MAC recomputed; two positive controls prove the forger produces acceptable messages): every shorter update path, a longer one, a wrong parent hash, another \
          member's HPKE or signature key in the new leaf, the unchanged HPKE key, a leaf signed for another index. Receivers: clones of members, the joiner's client (Welcome, tree), an external committer and an observer (GroupInfo). \
-         Cross-epoch replay: a proposal and a commit made by a discarded clone of a member in epoch n (so no receiver has seen them or consumed their keys) are delivered to every other member in epochs n+1 and n+2. Oracle: never Ok, never a panic; parts of a Welcome addressed to other joiners are exempt; genuine copies are delivered afterwards and must report the true sender, payload and authenticated data. \
+         Insider forgeries of a Welcome (GroupInfo opened with the joiner secret, changed, re-sealed for the joiner; unchanged re-sealed control must be accepted): signature bit, signer index, re-signed wrong confirmation tag, re-signed wrong epoch. Cross-epoch replay: GroupInfo messages (with and without tree) and a proposal and a commit made by a discarded clone of a member in epoch n (so no receiver has seen them or consumed their keys) are delivered to every other member in epochs n+1 and n+2. Oracle: never Ok, never a panic; parts of a Welcome addressed to other joiners are exempt; genuine copies are delivered afterwards and must report the true sender, payload and authenticated data. \
          Non-trivial = rejection by an authentication / validation check (error class other than decode, group id, version, epoch); distinct by (message kind, mutation, receiver, epoch).",
         &hp,
         spec,
